@@ -23,6 +23,10 @@ claimed = {
          "frame condition over consecutive snapshots + NfsSpec identity-on-error, checked by TLC", "5 C09"),
  "C10": ("model_checking", "At quiescent points of sequences with more live objects than the inode cache holds, directories spanning many blocks and long names, the running server's tree dump, the dump after a restart on the same disk and the reference state must coincide (handles, attributes, listings, bytes); FsStruct CacheCoherent/AllocCoherent compare every cached inode, name cache and allocator with the decoded logical disk.",
          "dump equality across restart + FsStruct cache/allocator coherence predicates, checked by TLC", "5 C10"),
+ "C01": ("model_checking", "Workloads (all mutating RPCs, three stability levels, multi-block writes, truncations, removals of files large enough to need the background shrinker) run on a recording disk with invoke/return markers in the same total order as the writes and barriers. For every boundary of the recorded stream and, per barrier window, for loss sets (none, each single write, all but the last, random subsets) the harness builds the crash image and runs the real recovery (MakeNfs); nested crashes inside the recovery's own stream are sampled. NfsTrace keeps the abstract tree after every call (H) and the durable index (Dur) and TLC decides for every image: the recovered tree equals H[k] for some k between the durable index of the acknowledged calls and the number of invoked calls; FsStruct holds on the recovered logical disk (including allocators read at start-up). Sampled images are continued with further operations (keeps serving) which are validated like any sequence.",
+         "crash-image enumeration + TLC check of the durability rule (NfsSpec hist/durable) and FsStruct on every recovered image", "5 C01"),
+ "C07": ("model_checking", "Same engine as C01 with workloads dominated by UNSTABLE writes to several files, COMMITs and metadata operations, unstable option on and off: the durable index advances only on what the replies promise (committed level, COMMIT to the last write of that file), so a recovered state must be a prefix containing everything acknowledged stable or committed; READ-after-UNSTABLE, committed >= requested and the write-verifier rules (constant within an instance, different across instances) are part of NfsSpec's WRITE/COMMIT rules.",
+         "crash-image enumeration + NfsSpec stability/verifier rules checked by TLC", "5 C07"),
 }
 checks = []
 for pid, (cat, text, tech, ref) in claimed.items():
